@@ -245,3 +245,18 @@ Qed.
 
 Lemma illegal_noop_l : forall cur s, diagram cur s = false -> fsm_step cur (RStatus s) = (cur, None).
 Proof. intros cur s H. simpl. unfold transition. now rewrite table_is_diagram_l, H. Qed.
+
+(* the automatic OK appended to ANY report history: delivered iff the instance is still in Starting *)
+Lemma auto_ok_after_l : forall rs,
+  events_of (rs ++ [RAutoOK]) =
+  events_of rs ++ (if status_eqb (fst (fsm_run SNone rs)) Starting then [OK] else []).
+Proof.
+  intros rs. unfold events_of. rewrite fsm_run_app.
+  destruct (fsm_run SNone rs) as [c1 e1]. cbn [fst snd fsm_run].
+  destruct (status_eqb c1 Starting) eqn:E.
+  - apply status_eqb_eq in E. subst c1. vm_compute fsm_step. reflexivity.
+  - cbn [fsm_step]. rewrite E. reflexivity.
+Qed.
+
+Lemma lifecycle_path_l : forall os i, path SNone (proj_events i (lc_events os)).
+Proof. intros os i. apply reporter_path_l. Qed.
